@@ -90,6 +90,49 @@ AllGraphs == {Mk("C09/graph/m" \o GName(lm) \o "-a" \o GName(la) \o "-b" \o GNam
                  <<F("main.tsh", GImps(lm), [i \in 1..Len(lm) |-> PrintS(<<StrL(lm[i]), ACall(GImps(lm)[i].alias, "Pub", <<I(1)>>)>>)] \o <<Print1(StrL("main"))>>, h),
                    F("a.tsh", GImps(la), GBody("a", GImps(la)), h), F("b.tsh", GImps(lb), GBody("b", GImps(lb)), h), F("c.tsh", <<>>, GBody("c", <<>>), h)>>)
               : lm \in MainLists, la \in ALists, lb \in BLists, h \in (IF Tier = "quick" THEN {"letter"} ELSE Hashes)}
+\* removal of unused functions: a function whose ONLY use sits at one particular site (every statement and expression position), in the main file or in
+\* an imported file that is itself only reached through main; a removed function shows as "command not found"
+Sites == {"print", "define", "assign", "ifcond", "ifbody", "elsebody", "forcond", "forbody", "forpost", "rangeopnd", "switchtag", "caseexpr", "casebody", "arg", "nestedarg", "return",
+          "operand", "notoperand", "index", "element", "setidxval", "lenarg", "itoaarg", "writedata", "funcbody", "funcinloop", "globalinit", "multidef", "stmtcall", "groupcall"}
+OnlyDef == <<Func("Only", <<Param("n", "int")>>, <<"int">>, <<PrintS(<<StrL("only"), Var("n")>>), RetS(<<Bin("+", Var("n"), I(7))>>)>>),
+             Func("OnlyS", <<>>, <<"[]int">>, <<PrintS(<<StrL("onlys")>>), RetS(<<SliceLit("int", <<I(4), I(5)>>)>>)>>),
+             Func("OnlyB", <<>>, <<"bool">>, <<PrintS(<<StrL("onlyb")>>), RetS(<<BoolL(TRUE)>>)>>),
+             Func("Unused", <<>>, <<"int">>, <<RetS(<<I(0)>>)>>)>>
+O(al, e) == ACall(al, "Only", <<e>>)
+SiteUse(al, st) ==
+  CASE st = "print" -> <<Print1(O(al, I(1)))>> [] st = "define" -> <<Def1("v", O(al, I(1))), Print1(Var("v"))>>
+    [] st = "assign" -> <<Def1("v", I(0)), Asg1("v", O(al, I(1))), Print1(Var("v"))>>
+    [] st = "ifcond" -> <<If1(CmpE(">", O(al, I(1)), I(0)), <<Print1(StrL("yes"))>>)>> [] st = "ifbody" -> <<If1(BoolL(TRUE), <<Print1(O(al, I(1)))>>)>>
+    [] st = "elsebody" -> <<IfElse(BoolL(FALSE), <<Print1(StrL("no"))>>, <<Print1(O(al, I(1)))>>)>>
+    [] st = "forcond" -> <<For3(Def1("i", I(0)), CmpE("<", Var("i"), Bin("-", O(al, I(1)), I(7))), Inc("i"), <<Print1(Var("i"))>>)>>
+    [] st = "forbody" -> <<For3(Def1("i", I(0)), CmpE("<", Var("i"), I(2)), Inc("i"), <<Print1(O(al, Var("i")))>>)>>
+    [] st = "forpost" -> <<For3(Def1("i", I(0)), CmpE("<", Var("i"), I(20)), Asg1("i", O(al, Var("i"))), <<Print1(Var("i"))>>)>>
+    [] st = "rangeopnd" -> <<RangeS("i", "v", ACall(al, "OnlyS", <<>>), <<PrintS(<<Var("i"), Var("v")>>)>>)>>
+    [] st = "switchtag" -> <<Switch(O(al, I(1)), <<CaseB(I(8), <<Print1(StrL("eight"))>>)>>, <<Print1(StrL("other"))>>, TRUE)>>
+    [] st = "caseexpr" -> <<Switch(I(8), <<CaseB(O(al, I(1)), <<Print1(StrL("eight"))>>)>>, <<Print1(StrL("other"))>>, TRUE)>>
+    [] st = "casebody" -> <<Switch(I(8), <<CaseB(I(8), <<Print1(O(al, I(1)))>>)>>, <<>>, FALSE)>>
+    [] st = "arg" -> <<Func("id", <<Param("n", "int")>>, <<"int">>, <<RetS(<<Var("n")>>)>>), Print1(CallE("id", <<O(al, I(1))>>))>>
+    [] st = "nestedarg" -> <<Print1(O(al, O(al, I(1))))>>
+    [] st = "return" -> <<Func("wrap", <<>>, <<"int">>, <<RetS(<<O(al, I(1))>>)>>), Print1(CallE("wrap", <<>>))>>
+    [] st = "operand" -> <<Print1(Bin("*", I(2), O(al, I(1))))>> [] st = "notoperand" -> <<Print1(Not(ACall(al, "OnlyB", <<>>)))>>
+    [] st = "index" -> <<Def1("sl", SliceLit("int", [k \in 1..9 |-> I(k)])), Print1(IndexE(Var("sl"), O(al, I(1))))>>
+    [] st = "element" -> <<Def1("sl", SliceLit("int", <<I(1), O(al, I(1))>>)), Print1(IndexE(Var("sl"), I(1)))>>
+    [] st = "setidxval" -> <<Def1("sl", SliceLit("int", <<I(1)>>)), SetIdx("sl", I(0), O(al, I(1))), Print1(IndexE(Var("sl"), I(0)))>>
+    [] st = "lenarg" -> <<Print1(LenE(ACall(al, "OnlyS", <<>>)))>> [] st = "itoaarg" -> <<Print1(Bin("+", StrL("n"), Itoa(O(al, I(1)))))>>
+    [] st = "writedata" -> <<Print1(Bin("+", StrL("w"), Itoa(O(al, I(2)))))>>
+    [] st = "funcbody" -> <<Func("wrap", <<>>, <<>>, <<Print1(O(al, I(1)))>>), ExprS(CallE("wrap", <<>>))>>
+    [] st = "funcinloop" -> <<Func("wrap", <<>>, <<>>, <<For3(Def1("i", I(0)), CmpE("<", Var("i"), I(2)), Inc("i"), <<If1(CmpE("==", Var("i"), I(1)), <<Print1(O(al, Var("i")))>>)>>)>>), ExprS(CallE("wrap", <<>>))>>
+    [] st = "globalinit" -> <<Def1("g", O(al, I(1))), Func("show", <<>>, <<>>, <<Print1(Var("g"))>>), ExprS(CallE("show", <<>>))>>
+    [] st = "multidef" -> <<Def(<<"v", "w">>, <<I(1), O(al, I(1))>>), PrintS(<<Var("v"), Var("w")>>)>>
+    [] st = "stmtcall" -> <<ExprS(O(al, I(1))), Print1(StrL("after"))>> [] st = "groupcall" -> <<Print1(Grp(O(al, I(1))))>>
+\* in an imported file the alias is "x"; its public function runs the site
+SiteCases == {Mk("C09/site/main/" \o st, h, <<F("main.tsh", <<Imp("a", "a.tsh")>>, SiteUse("a", st) \o <<Print1(StrL("end"))>>, h), F("a.tsh", <<>>, OnlyDef, h)>>) : st \in Sites, h \in {"letter"}}
+             \cup {Mk("C09/site/imported/" \o st, h, <<F("main.tsh", <<Imp("b", "b.tsh")>>, <<ExprS(ACall("b", "Run", <<>>)), Print1(StrL("end"))>>, h),
+                                                        F("b.tsh", <<Imp("x", "a.tsh")>>, <<Func("Run", <<>>, <<>>, SiteUse("x", st))>>, h), F("a.tsh", <<>>, OnlyDef, h)>>)
+                    : st \in Sites \ {"arg", "return", "funcbody", "funcinloop", "globalinit"}, h \in {"digit"}}
+             \cup {Mk("C09/site/importedtop/" \o st, h, <<F("main.tsh", <<Imp("b", "b.tsh")>>, <<Print1(StrL("end"))>>, h),
+                                                           F("b.tsh", <<Imp("x", "a.tsh")>>, SiteUse("x", st), h), F("a.tsh", <<>>, OnlyDef, h)>>)
+                    : st \in Sites, h \in {"letter"}}
 \* rejected programs
 NegH(h) == {Mk("C09/neg/private", h, <<F("main.tsh", <<Imp("a", "a.tsh")>>, <<Print1(ACall("a", "hidden", <<I(1)>>))>>, h), F("a.tsh", <<>>, FileBody("a", "priv", 1), h)>>),
         Mk("C09/neg/undefined", h, <<F("main.tsh", <<Imp("a", "a.tsh")>>, <<Print1(ACall("a", "Nope", <<I(1)>>))>>, h), F("a.tsh", <<>>, FileBody("a", "pub", 1), h)>>),
@@ -100,5 +143,5 @@ NegH(h) == {Mk("C09/neg/private", h, <<F("main.tsh", <<Imp("a", "a.tsh")>>, <<Pr
         Mk("C09/neg/transitivealias", h, <<F("main.tsh", <<Imp("a", "a.tsh")>>, <<Print1(ACall("x", "Pub", <<I(1)>>))>>, h), F("a.tsh", <<Imp("x", "b.tsh")>>, ViaBody("a", "x"), h), F("b.tsh", <<>>, FileBody("b", "pub", 2), h)>>),
         Mk("C09/neg/argtype", h, <<F("main.tsh", <<Imp("a", "a.tsh")>>, <<Print1(ACall("a", "Pub", <<StrL("s")>>))>>, h), F("a.tsh", <<>>, FileBody("a", "pub", 1), h)>>)}
 Neg == NegH("digit")
-ASSUME ndJsonSerialize("fam.ndjson", SetToSeq(S1 \cup S2 \cup S3 \cup S4 \cup S4b \cup S5 \cup S6 \cup S7 \cup S8 \cup AllGraphs \cup Neg))
+ASSUME ndJsonSerialize("fam.ndjson", SetToSeq(S1 \cup S2 \cup S3 \cup S4 \cup S4b \cup S5 \cup S6 \cup S7 \cup S8 \cup AllGraphs \cup SiteCases \cup Neg))
 =============================================================================
